@@ -7,6 +7,7 @@ mod c09;
 mod c10;
 mod c14;
 mod c22;
+mod c23;
 mod c25;
 mod c26;
 mod c27;
@@ -28,6 +29,7 @@ fn main() {
         "c10" => c10::main(&args),
         "c14" => c14::main(&args),
         "c22" => c22::main(&args),
+        "c23" => c23::main(&args),
         "c25" => c25::main(&args),
         "c26" => c26::main(&args),
         "c27" => c27::main(&args),
